@@ -153,7 +153,13 @@ type SimConn struct {
 	Closes int
 	// FailSetDeadline makes SetRead/WriteDeadline fail (fault injection).
 	FailSetDeadline bool
+	// CloseErr, if set, is returned by the first Close although the connection is closed all the same
+	// (like tls.Conn when the close-notify alert cannot be sent).
+	CloseErr error
 }
+
+// Peer returns the other end of the connection (harness access to the server side for fault handles).
+func (c *SimConn) Peer() *SimConn { return c.peer }
 
 var errClosedConn = &Err{Msg: "use of closed network connection"}
 
@@ -243,6 +249,12 @@ func (c *SimConn) Close() error {
 	c.r.rclosed = true
 	if s := c.net.sim; s != nil {
 		s.Logf("net close %s", c.Name)
+	}
+	if c.CloseErr != nil {
+		if s := c.net.sim; s != nil {
+			s.Count("net-close-returns-error")
+		}
+		return c.CloseErr
 	}
 	return nil
 }
